@@ -248,6 +248,25 @@ Example rejected_nonmerge_nonvacuous :
   step st (ONewSymbol (TSlot 0) "a" "" false sp_data false) = (st, RErr ESymbol).
 Proof. vm_compute. repeat split. Qed.
 
+(* rejected remove()/swap() of TAGGED symbols that are still referenced (a container imported from, a
+   routine that is a member of a generic interface): the whole state, tag map included, is unchanged *)
+Definition ops_E4 : list op :=
+  [OAdd (TSlot 0) "mod1" sp_cont "c1"; OAdd (TSlot 0) "x" (sp_imp 0) "";
+   OAdd (TSlot 0) "sub" (mkSpec KRoutine false IAuto) "r1";
+   OAdd (TSlot 0) "gen" (mkSpec (KGenIface [2]) false IAuto) "g1"].
+
+Example rejected_remove_tagged_nonvacuous :
+  let st := run (init_state 1) ops_E4 in
+  step st (ORemove (TSlot 0) 0) = (st, RErr EValue) /\
+  step st (ORemove (TSlot 0) 2) = (st, RErr EValue) /\
+  step st (OSwap (TSlot 0) 0 "MOD1" sp_cont) = (st, RErr EValue) /\
+  snd (step st (OLookupTag (TSlot 0) "c1")) = RSym 0 /\
+  snd (step st (OLookupTag (TSlot 0) "r1")) = RSym 2 /\
+  snd (step st (OFindOrCreateTag (TSlot 0) "c1" "mod1" false sp_cont true)) = RSym 0 /\
+  (* once the references are gone the removals succeed and take the tags with them *)
+  snd (step (run st [ORemove (TSlot 0) 3; ORemove (TSlot 0) 2]) (OLookupTag (TSlot 0) "r1")) = RErr EKey.
+Proof. vm_compute. repeat split. Qed.
+
 (* fresh names: case-insensitive, suffix search over self + ancestors + other *)
 Example fresh_name_nonvacuous :
   let st := run (init_state 2)
